@@ -140,6 +140,22 @@ def run(tier):
     r, spec = run_oracle(jobs)
     ck.add_tlc(r, 'PegSemBatch')
     impl = run_impl(cases, fn=run_both_case, chunk=4)
+    # PegMachine in both flavours (model interpreter / generated parser: last_node binding, define() only in sequences, grammar not
+    # optimized) on every job: a difference between the two real back-ends is a KNOWN finding only if the two flavours of the
+    # specification predict exactly the two observed outcomes; the generated parser must follow its flavour on every shape
+    from ..pegcheck import machine_vs_impl, run_machine, with_marks
+    marked = with_marks([it['g'] for it in items])
+    mjobs = Jobs()
+    for it, g in zip(items, marked):
+        for backend in ('model', 'gen'):
+            mcfg = make_cfg(chars_of(g, it['texts']), **it['cfg'])
+            mcfg.update({'backend': backend, 'maxmiss': 0, 'prune': True, 'memoize': True})
+            mjobs.add(g, mcfg, it['texts'])
+    rm, mach = run_machine(mjobs)
+    ck.add_tlc(rm, 'PegMachineMC (model flavour and generated-parser flavour)')
+    if rm.violated:
+        ck.violation({'kind': 'schedule', 'inputs': {'spec': 'PegMachineMC'}, 'expected': 'Refines (model flavour), FramesBalanced, StepBound, CutContained',
+                      'observed': rm.violated, 'trace': rm.trace[:60]}, key='machine' + str(rm.violated))
     seen = set()
     for j, (it, c, im) in enumerate(zip(items, cases, impl), 1):
         g = it['g']
@@ -166,6 +182,17 @@ def run(tier):
             why = None
             # (i) agreement with the model (all shapes)
             mp, gp = mr['plain'], gr['plain']
+            mm, mg = mach.get(2 * j - 1, {}).get(t + 1), mach.get(2 * j, {}).get(t + 1)
+            if mm is None or mg is None:
+                from .. import tlc as _tlc
+                raise _tlc.MachineryError(f'PegMachineMC produced no final state for job {j} text {t + 1}')
+            gen_dev = machine_vs_impl(mg, gp)
+            predicted = gen_dev is None and machine_vs_impl(mm, mp) is None
+            if gen_dev and mm['r'].get('k') != 'none':
+                ck.violation({'kind': 'parse', 'inputs': {'grammar': c['ebnf'], 'text': c['texts'][t], 'settings': c['settings'], 'label': it['label']},
+                              'expected': mg['r'], 'observed': gp, 'why': 'generated parser departs from PegMachine (generated flavour): ' + gen_dev,
+                              'spec': 'PegMachine with Cfg.backend = "gen"'}, key=c['ebnf'] + 'genflavour' + it['label'])
+                continue
             if mp['k'] != gp['k']:
                 why = f"model {mp['k']}:{mp.get('cls')} generated {gp['k']}:{gp.get('cls')}"
             elif mp['k'] == 'ok' and mp['v'] != gp['v']:
@@ -182,10 +209,12 @@ def run(tier):
             if not why:
                 continue
             what = f"{c['ebnf'].strip()} on {c['texts'][t]!r} [{it['label']}]: {why}"
-            if lastnode and ('AST differs' in why or 'value' in why or gp['k'] != mp['k']) and ck.known('KF-C02-1', what):
+            if predicted and lastnode and ('AST differs' in why or 'value' in why or gp['k'] != mp['k']) and ck.known('KF-C02-1', what):
                 continue
-            if defscope and ('AST differs' in why or 'value' in why) and ck.known('KF-C02-2', what):
+            if predicted and defscope and ('AST differs' in why or 'value' in why) and ck.known('KF-C02-2', what):
                 continue
+            if not predicted:
+                why += ' (and the two flavours of PegMachine do not predict this pair of outcomes)'
             ck.violation({'kind': 'parse', 'inputs': {'grammar': c['ebnf'], 'text': c['texts'][t], 'settings': c['settings'],
                                                       'label': it['label']},
                           'expected': {'spec': so, 'model': mr}, 'observed': gr, 'why': why, 'spec': 'PegSem!Parse + agreement'},
